@@ -508,10 +508,14 @@ func fdFilestatSetTimesFn(_ context.Context, mod api.Module, params []uint64) ex
 	// Try to update the file timestamps by file-descriptor.
 	errno = f.File.Utimens(atim, mtim)
 
-	// Fall back to path based, despite it being less precise.
+	// Fall back to path based, despite it being less precise. Entries which
+	// are not backed by a file system (stdio, sockets) have nothing to fall
+	// back to, so they keep the errno of the descriptor based attempt.
 	switch errno {
 	case experimentalsys.EPERM, experimentalsys.ENOSYS:
-		errno = f.FS.Utimens(f.Name, atim, mtim)
+		if f.FS != nil {
+			errno = f.FS.Utimens(f.Name, atim, mtim)
+		}
 	}
 
 	return errno
